@@ -30,14 +30,26 @@ import time
 import vp
 
 NPAR = max(2, min(8, vp.NCPU // 2))
-CONSTS = "  FixAsyncCb = %s\n  FixCbOutsideLock = %s\n  FixKickoff = %s\n"
+FIXES = ["FixAsyncCb", "FixCbRpc", "FixCbEl", "FixKickoff", "FixDispatch", "FixPolicy", "FixResend", "FixRecover"]
+
+
+def fixes(old=False):
+    """The Fix constants of Locks.tla. The specification transcribes the code WITH the six repairs (all TRUE).
+    old=True: the code before the repairs (regression schedules). VERIF_LOCKS_UNFIXED=FixCbRpc,... (or `all`)
+    makes the main model follow a tree in which some repairs are absent."""
+    un = os.environ.get("VERIF_LOCKS_UNFIXED", "")
+    off = set(FIXES) if (old or un == "all") else {x.strip() for x in un.split(",") if x.strip()}
+    return {k: (k not in off) for k in FIXES}
+
+
+def consts(fx):
+    return "".join("  %s = %s\n" % (k, "TRUE" if fx[k] else "FALSE") for k in FIXES)
 
 
 # ------------------------------------------------------------------ TLC side
 
-def _cfg(sd, name, mode, tier, part, parts, fix=False, extra_inv=()):
-    f = "TRUE" if fix else "FALSE"
-    txt = "CONSTANTS\n" + CONSTS % (f, f, f)
+def _cfg(sd, name, mode, tier, part, parts, fx=None, extra_inv=()):
+    txt = "CONSTANTS\n" + consts(fx or fixes())
     txt += '  Mode = "%s"\n  Tier = "%s"\n  Part = %d\n  Parts = %d\n' % (mode, tier, part, parts)
     txt += "INIT Init\nNEXT Next\nINVARIANT InvBounded\nINVARIANT Collect\n"
     for i in extra_inv:
@@ -46,15 +58,15 @@ def _cfg(sd, name, mode, tier, part, parts, fix=False, extra_inv=()):
     open(os.path.join(sd, name), "w").write(txt)
 
 
-def _tlc_parts(sd, mode, tier, parts):
+def _tlc_parts(sd, mode, tier, parts, fx=None, tag=""):
     """Collecting runs use TLC registers, which are per worker: one worker per
     part, the parts in parallel processes (each in its own copy of the spec dir)."""
     def one(i):
-        d = os.path.join(sd, "p-%s-%d" % (mode, i))
+        d = os.path.join(sd, "p-%s%s-%d" % (mode, tag, i))
         os.makedirs(d, exist_ok=True)
         for f in glob.glob(os.path.join(sd, "Locks*.tla")):
             shutil.copy(f, d)
-        _cfg(d, "mc.cfg", mode, tier, i, parts)
+        _cfg(d, "mc.cfg", mode, tier, i, parts, fx=fx)
         r = vp.tlc("LocksMC", "mc.cfg", d, workers=1, timeout=3000, heap="3g", quiet=True)
         if not r["ok"]:
             raise vp.Fatal("Locks.tla (%s, part %d): %s\n%s" % (mode, i, r["violated"], r["out"][-2000:]))
@@ -71,20 +83,21 @@ def spec_hash():
 
 
 def model_check(sd, tier):
-    """Fine-grained exploration: deadlock classes and predicted races (cached per spec text and tier)."""
+    """Fine-grained exploration of the model of the code: deadlock classes (none expected after the repairs) and
+    predicted races (cached per spec text, tier and Fix constants)."""
     cdir = os.path.join(vp.WORKROOT, "cache-locks")
     os.makedirs(cdir, exist_ok=True)
-    cpath = os.path.join(cdir, "model-%s-%s.json" % (spec_hash(), tier))
+    fx = fixes()
+    fkey = "".join("1" if fx[k] else "0" for k in FIXES)
+    cpath = os.path.join(cdir, "model-%s-%s-%s.json" % (spec_hash(), tier, fkey))
     if os.path.exists(cpath) and not os.environ.get("VERIF_NOCACHE"):
-        return json.load(open(cpath))
+        m = json.load(open(cpath))
+        m["from_cache"] = True      # same specification text, constants and tier: TLC's exhaustive result is deterministic
+        return m
     t0 = time.time()
     parts = NPAR
-    _cfg(sd, "fix.cfg", "fine", tier, 0, 1, fix=True, extra_inv=("InvNoDeadlock",))
-    with cf.ThreadPoolExecutor(2) as ex:
-        ffix = ex.submit(vp.tlc, "LocksMC", "fix.cfg", sd, 4, None, 3000, "6g", False, True)
-        res = _tlc_parts(sd, "fine", tier, parts)
-        fx = ffix.result()
-    out = dict(deadlocks=[], races=[], stuck_states=0, configs=0, distinct=0, generated=0, depth=0)
+    res = _tlc_parts(sd, "fine", tier, parts)
+    out = dict(deadlocks=[], races=[], stuck_states=0, configs=0, distinct=0, generated=0, depth=0, fixes=fx)
     for i, (d, r) in enumerate(res):
         m = json.load(open(os.path.join(d, "model_%d.json" % i)))
         out["deadlocks"] += m["deadlocks"]
@@ -94,26 +107,20 @@ def model_check(sd, tier):
         out["distinct"] += r["distinct"]
         out["generated"] += r["generated"]
         out["depth"] = max(out["depth"], r["depth"])
-    # the repaired design: same configurations, P_C18_nodeadlock as a plain invariant
-    out["fixed_design_ok"] = fx["ok"]
-    out["fixed_design_states"] = fx["distinct"]
-    if not fx["ok"]:
-        raise vp.Fatal("the repaired design of Locks.tla still deadlocks: %s" % fx["violated"])
     out["returns_checked"] = False
-    if tier == "thorough":
-        # P_C18_returns (every started handler eventually returns, weak fairness) as a temporal property on the repaired design
-        f = "TRUE"
+    if tier == "thorough" and not out["deadlocks"]:
+        # P_C18_returns (every started handler eventually returns, weak fairness) as a temporal property
         open(os.path.join(sd, "live.cfg"), "w").write(
-            "CONSTANTS\n" + CONSTS % (f, f, f) + '  Mode = "fine"\n  Tier = "quick"\n  Part = 0\n  Parts = 1\n'
+            "CONSTANTS\n" + consts(fx) + '  Mode = "fine"\n  Tier = "quick"\n  Part = 0\n  Parts = 1\n'
             "SPECIFICATION Spec\nINVARIANT InvBounded\nINVARIANT InvNoDeadlock\nPROPERTY P_C18_returns\nCHECK_DEADLOCK FALSE\n")
         lv = vp.tlc("LocksMC", "live.cfg", sd, timeout=3000, heap="8g", quiet=True)
         if not lv["ok"]:
-            raise vp.Fatal("P_C18_returns fails on the repaired design: %s" % lv["violated"])
+            raise vp.Fatal("P_C18_returns fails on Locks.tla: %s" % lv["violated"])
         out["returns_checked"] = True
         out["returns_states"] = lv["distinct"]
     out["wall"] = round(time.time() - t0, 1)
-    vp.log("Locks.tla fine: %d configs, %d distinct states, %d deadlock classes (%d stuck states), %d race records; repaired design ok (%d states); %.0fs"
-           % (out["configs"], out["distinct"], len(out["deadlocks"]), out["stuck_states"], len(out["races"]), fx["distinct"], out["wall"]))
+    vp.log("Locks.tla fine: %d configs, %d distinct states, %d deadlock classes (%d stuck states), %d race records; %.0fs"
+           % (out["configs"], out["distinct"], len(out["deadlocks"]), out["stuck_states"], len(out["races"]), out["wall"]))
     json.dump(out, open(cpath + ".tmp", "w"))
     os.replace(cpath + ".tmp", cpath)
     return out
@@ -126,14 +133,38 @@ ENTRY = {"pol_set": "pol_disable", "msg_req": "msg_req_in"}
 
 
 def export_schedules(sd, tier):
-    res = _tlc_parts(sd, "gate", tier, NPAR)
-    ms, st = [], dict(distinct=0, generated=0)
+    """Gate-level schedules of the model of the code (one per configuration, outcome, first mover) plus, as regression
+    schedules, those schedules of the model of the code BEFORE the repairs that end in a deadlock there: they are the
+    interleavings in which a missing repair shows."""
+    fx, old = fixes(), fixes(old=True)
+    with cf.ThreadPoolExecutor(2) as ex:
+        f1 = ex.submit(_tlc_parts, sd, "gate", tier, NPAR)
+        f2 = ex.submit(_tlc_parts, sd, "gate", tier, max(2, NPAR // 2), old, "-old") if old != fx else None
+        res, res_old = f1.result(), (f2.result() if f2 else [])
+    ms, st = [], dict(distinct=0, generated=0, regression=0, old_deadlock_classes=0)
     for i, (d, r) in enumerate(res):
         p = os.path.join(d, "sched_%d.ndjson" % i)
         if os.path.exists(p):
             ms += [json.loads(x) for x in open(p) if x.strip()]
         st["distinct"] += r["distinct"]
         st["generated"] += r["generated"]
+    classes = set()
+    for i, (d, r) in enumerate(res_old):
+        p = os.path.join(d, "sched_%d.ndjson" % i)
+        if os.path.exists(p):
+            for x in open(p):
+                if x.strip():
+                    m = json.loads(x)
+                    if m["deadlock"]:
+                        classes.add(json.dumps(sorted((w["e"], w["lock"]) for w in m["waits"])))
+                        m["name"] = "old:" + m["name"]
+                        m["deadlock"] = False      # a prediction of the old model, not of the code's model
+                        m["regression"] = True
+                        ms.append(m)
+                        st["regression"] += 1
+        st["distinct"] += r["distinct"]
+        st["generated"] += r["generated"]
+    st["old_deadlock_classes"] = len(classes)
     ms.sort(key=lambda m: m["name"])
     return ms, st
 
@@ -251,8 +282,9 @@ def validate(sd, trace, nlines, parts=None):
         i, ls = ij
         d = os.path.join(sd, "v-%d" % i)
         os.makedirs(d, exist_ok=True)
-        for f in glob.glob(os.path.join(sd, "Locks*.tla")) + [os.path.join(sd, "LocksTrace.cfg")]:
+        for f in glob.glob(os.path.join(sd, "Locks*.tla")):
             shutil.copy(f, d)
+        open(os.path.join(d, "LocksTrace.cfg"), "w").write("CONSTANTS\n" + consts(fixes()) + "INIT Init\nNEXT Next\nCHECK_DEADLOCK FALSE\n")
         tp = os.path.join(d, "trace.ndjson")
         open(tp, "w").write("\n".join(ls) + "\n")
         return vp.validate_trace("LocksTrace", "LocksTrace.cfg", d, tp, heap="3g")
@@ -288,7 +320,7 @@ def run_c18(prop, tier):
             f1 = ex.submit(model_check, sd, tier)
             f2 = ex.submit(export_schedules, sd, tier)
             model, (ms, gst) = f1.result(), f2.result()
-        vp.log("TLC (instruction level, repaired design, gate level): %.0fs" % (time.time() - t1))
+        vp.log("TLC (instruction level, gate level, gate level of the unrepaired model): %.0fs" % (time.time() - t1))
         rng = random.Random(vp.seed())
         scheds = harness_schedules(ms, tier, rng)
         rng.shuffle(scheds)
@@ -340,8 +372,9 @@ def run_c18(prop, tier):
                  "cases; non-trivial = at least two concurrent entry points",
             configurations=model["configs"], model_deadlock_states=model["stuck_states"], model_deadlock_classes=len(classes),
             model_deadlock_kinds=sorted(classes)[:40],
-            repaired_design_deadlock_free=model["fixed_design_ok"], repaired_design_states=model["fixed_design_states"],
-            repaired_design_returns_under_fairness_checked=model.get("returns_checked", False),
+            model_result_reused_from_same_spec_text=bool(model.get("from_cache")), model_follows_repairs=model.get("fixes"),
+            returns_under_weak_fairness_checked=model.get("returns_checked", False),
+            regression_schedules_from_unrepaired_model=gst["regression"], unrepaired_model_deadlock_classes=gst["old_deadlock_classes"],
             gate_level_states=gst["distinct"], schedules_exported=len(ms), schedules_predicting_deadlock=sum(1 for m in ms if m["deadlock"]),
             schedules_run_on_real_code=len(scheds), stress_cases_run=len(scases), trace_lines_validated=n, steps_replayed_on_spec=v["replayed"],
             conformance_mismatches=len(v["mismatch"]), candidates_not_reproduced=len(v["notreproduced"]),
@@ -424,7 +457,7 @@ def run_c19(prop, tier):
         spec_txt = open(os.path.join(vp.SPEC, "Locks.tla")).read()
         sites |= set(re.findall(r'Acc\("([^"]+)"', spec_txt)) | {"swap.(*SwapStateMachine).SendEvent"}
         binp = vp.build_harness("./cmd/locks", race=True)
-        rounds = 2 if tier == "quick" else 10
+        rounds = 2 if tier == "quick" else 40
         cases = stress_cases(binp, wd, vp.seed(), rounds)
         budget = 100 if tier == "quick" else 1100
         env = dict(GORACE="halt_on_error=0 exitcode=0 history_size=4")
@@ -468,7 +501,7 @@ def run_c19(prop, tier):
                  "both do something (entry point pair x role/stage variant x watcher x chain depth, drawn by VERIF_SEED); distinct = different "
                  "(entry points, watcher, role, stage, depth, restart, real-loops) tuples with at least two entry points",
             monitor="Go race detector (go build -race -tags verif) on the real code; the specification supplies the schedule space and the predicted pairs",
-            predicted_race_pairs=len(predicted), predicted=sorted("%s | %s | %s" % (a, b, ",".join(sorted(vs))) for (a, b), vs in predicted.items()),
+            model_result_reused_from_same_spec_text=bool(model.get("from_cache")), predicted_race_pairs=len(predicted), predicted=sorted("%s | %s | %s" % (a, b, ",".join(sorted(vs))) for (a, b), vs in predicted.items()),
             stress_cases_generated=len(cases), stress_cases_run=k, race_reports=nrep, distinct_detected_pairs=len(reports),
             detected_not_predicted=unpred, predicted_not_detected=sorted("%s | %s" % kk for kk in predicted if kk not in reports),
             note="absence of a report is evidence only for the schedules that were run; the detector only sees races whose both accesses "
